@@ -3,25 +3,25 @@
 import json, subprocess
 
 CHECKS = [
- ("C01","exploration","bounded exhaustive input/configuration enumeration on the implementation (explicit product of key x every payload length x footer x assertion x owned RNG answers; no sampling)",
+ ("C01","exploration","bounded exhaustive input/configuration enumeration on the implementation (explicit product of key x every payload length x footer x assertion x owned RNG answers; no sampling), odd cases on cloned key objects; two-step histories on a fresh OS thread over selected cases",
   "Round-trip identity over every cell of the product on the real code; library nonces via the owned getrandom / libsodium seams, aws-lc ECDSA (r,s) width classes via the H1 nonce seam.",
   "Payload contents: one pattern per length. aws-lc DRBG values and RSA-PSS salts are not ownable (repeated, value-independent oracle)."),
- ("C02","fault_enumeration","exhaustive fault enumeration per base token (every bit, byte value, truncation, extension, boundary shift incl. length-imitating zero-filled pieces, relabel, typed-footer re-encoding, key bit) executed on the implementation",
+ ("C02","fault_enumeration","exhaustive fault enumeration per base token (every bit, byte value, truncation, extension, boundary shift incl. length-imitating zero-filled pieces, relabel, typed-footer re-encoding, text segments appended, every piece length 0..600 with every piece altered, key bit) executed on the implementation",
   "Every fault of every listed class is applied to every base token and unsealed; any acceptance is a violation; the untouched token must be accepted (witness).",
   "Fault classes are exactly those the statement lists (single-bit, truncation/extension, boundary shifts, relabels, other keys); ECDSA (r,n-s) is not a single-bit change."),
- ("C03","exploration","bounded exhaustive enumeration vs executable reference models (spec-derived, vector-validated), incl. counter-carry states reached directly or through the H2 seam",
+ ("C03","exploration","bounded exhaustive enumeration vs executable reference models (spec-derived, vector-validated), incl. counter-carry states reached directly or through the H2 seam; two-step histories on a fresh OS thread over selected cases",
   "Library output == model output for every cell (keys x block-boundary lengths x footers x assertions x nonces incl. counter carry); independent verifiers/signers for randomized schemes; siblings cross-accept.",
   "Reference models use RustCrypto primitives (Ctr128BE) and must reproduce every official vector in the same run; aws-lc-rs is the independent RSA-PSS/ECDSA/Ed25519 party."),
  ("C04","exploration","bounded exhaustive input enumeration (every parser x every body length 0..940 x content classes, position substitutions, key-byte alphabets) with per-call panic capture; operations applied to every accepted value",
   "Oracle: Ok or Err, never a panic/abort/signal. Every accepted value is used in every operation.",
   "Contents are classes (lengths, positions, headers exhaustive). PBKW costs outside the budget are parsed but not executed. Aborts are attributed by the driver's trace re-run."),
- ("C05","exploration","bounded exhaustive enumeration of wrapped key x secret x cost x owned RNG answers, plus searched RNG scripts reaching RSA-KEM c / P-384 epk leading-zero classes",
+ ("C05","exploration","bounded exhaustive enumeration of wrapped key x secret x cost x owned RNG answers, plus searched RNG scripts reaching RSA-KEM c / P-384 epk leading-zero classes; two-step histories on a fresh OS thread over selected cases",
   "Round-trip identity and fixed blob length over the whole product on the real code.",
   "aws-lc ephemeral values not ownable (repeated). PBKW parameters inside the stated budget plus the defaults."),
  ("C06","fault_enumeration","exhaustive fault enumeration per base blob (every bit of every byte, every truncation, extensions, header relabels across k1..k4 x kinds, every key/password bit)",
   "Every fault applied and opened on the real code; any Ok is a violation.",
   "PBKW parameter corruptions leaving the cost budget are classified before execution and skipped (counted). v1 PKE quick tier thins the 512-byte c (thorough: all bits)."),
- ("C07","exploration","bounded exhaustive enumeration vs executable PASERK reference models for the same owned random draws; model-built blobs (incl. counter carry via H2) opened by the implementation",
+ ("C07","exploration","bounded exhaustive enumeration vs executable PASERK reference models for the same owned random draws; model-built blobs (incl. counter carry via H2) opened by the implementation; two-step histories on a fresh OS thread (same salt and password under different costs)",
   "Library blob == model blob for identical draws; every model blob opens to the model's key; siblings open each other's output.",
   "Models validated on the official vectors in the same run (PBKW vectors above 64 MiB only in thorough)."),
  ("C08","model_checking","explicit-state BFS over the key-representation graph on the real conversion functions, histories re-executed on live key objects (invariant on bytes and on the behaviour of the very object reached, in every state) + exhaustive acceptance sweep against a validity model",
